@@ -53,6 +53,12 @@ CHECKS = {
    text="Per instance: PPT-distinguishability primal and dual programs equal the textbook programs with the oracle's own partial-transpose map (either party, 2x2 and 2x3); "
         "the symmetric-extension hierarchy program at levels 1 and 2 equals the textbook program (marginal, symmetric-subspace, PT cuts, completeness, objective); "
         "the caller's list of states holds the same objects after the call."),
+ "C20": dict(engine="sdpcap", category="translation_validation", design_ref="DESIGN.md §3 C20, §2.2",
+   technique="capture of the picos / cvxpy program built by the real code, exact affine extraction (spectral norm as uninterpreted function), z3 proof of equality with the definition's program for all decision-variable values, numeric replay; symbolic execution of the shortcut branches",
+   note="instance data concrete (dyadic Choi matrices, family in evidence.bounds); library evaluation trusted for extraction; the SDP characterisations (Watrous; Katariya-Wilde) are taken as the definitions; conic solvers and LAPACK norms trusted; z3 5.1.0",
+   text="Per instance: the cb-trace-norm program equals Watrous' SDP; diamond distance and cb spectral norm are that program for J1-J2 and for the oracle's own dual map; the channel-fidelity "
+        "program equals the definition's SDP for local dimension 2, 3, 5 (4, 6 thorough). Shortcut branches on a symbolic CP Choi matrix: channel => 1, CP non-TP => operator norm of Phi*(I) "
+        "(the latter is a recorded known finding: the code returns the trace norm)."),
 }
 NOT_BUILT = "check not built yet in this round (planned per DESIGN.md §3); nothing is claimed"
 NA = {f"C{i:02d}": NOT_BUILT for i in range(1, 21) if f"C{i:02d}" not in CHECKS}
@@ -63,7 +69,7 @@ ENGINES = [
  {"name": "sdpcap", "path": "sdpcap/", "serves_properties": [k for k, v in CHECKS.items() if v["engine"] == "sdpcap"],
   "kind_free_text": "E2: capture of the cvxpy/picos program the real code builds, exact affine extraction on a basis, z3 obligations T1/T2/T3"},
 ]
-NOTES = ("fix: commits in /repo: cb7d15f, 497f2e2 (C01), 03de9a5, c7b010c (C06), b47dfd5 (C10), 897b7c3 (C11), cb4fb7c (C12); see known_findings.json 'fixed'. "
+NOTES = ("fix: commits in /repo: cb7d15f, 497f2e2 (C01), 03de9a5, c7b010c (C06), b47dfd5 (C10), 897b7c3 (C11), cb4fb7c (C12), 73fd273, 0d7cc36 (C20); see known_findings.json 'fixed'. "
          "Exit codes: 0 held / 1 VIOLATION (reproduced on the real code) / 2 harness error.")
 
 checks = []
